@@ -18,6 +18,11 @@ type Check struct {
 	// FreshProcessReplay: the property is about independence from what the process did earlier, so
 	// a violation is confirmed by replaying it in two fresh processes, not inside this one.
 	FreshProcessReplay bool
+	// SameFinding, if set, says which clauses count as the same finding when a replay is compared with
+	// the run that produced the witness. C18 needs it: a transition that depends on something random
+	// (Go's map order inside a dependency) disagrees with itself in every replay, but which of the
+	// compared executions differ first - the repeat, the second node, the restarted node - is random too.
+	SameFinding func(found, replayed string) bool
 }
 
 var registry = map[string]*Check{}
